@@ -15,23 +15,25 @@ NVT = 8
 sym_mods = common.sym_mods
 
 
-def _wrap(h, NVT=NVT):
+def _wrap(h, NVT=NVT, sched="iter"):
     def run(env, **cfg):
         from ..llsym import bridge, omp
         if not env.sym:
             return h(env, **cfg)
         omp.reset()
-        bridge.OMP_NVT = NVT
+        del bridge.UNINIT[:]
+        bridge.OMP_NVT, bridge.OMP_SCHED = NVT, sched
         try:
             h(env, **cfg)
         finally:
-            bridge.OMP_NVT = None
+            bridge.OMP_NVT, bridge.OMP_SCHED = None, "iter"
         regions = list(omp.REGIONS)
         env.check("parallel_regions_reached", len(regions) > 0, "no __kmpc_fork_call was executed")
         loops = [r for r in regions if r[2] > 0]
         env.check("work_shared_loops_reached", len(loops) > 0 or not regions, str(regions))
-        short = [r for r in loops if r[2] > NVT]
-        env.check("every_iteration_has_its_own_virtual_thread", not short, "loops longer than %d virtual threads: %s" % (NVT, short))
+        if sched == "iter":
+            short = [r for r in loops if r[2] > NVT]
+            env.check("every_iteration_has_its_own_virtual_thread", not short, "loops longer than %d virtual threads: %s" % (NVT, short))
         by = {}
         for r in omp.RACES:
             by.setdefault(r["region"], []).append(r)
@@ -39,6 +41,9 @@ def _wrap(h, NVT=NVT):
             rs = by.get(fn, [])
             env.check("no_data_race/%s" % fn.strip("."), not rs, "; ".join(x["detail"] for x in rs[:3]))
         env.tags.append("omp regions: %s" % sorted({(r[0], r[2]) for r in regions}))
+        ur = sorted({u for l in bridge.UNINIT for u in l})
+        if ur:
+            env.tags.append("uninitialised heap doubles read (modelled as unconstrained reals): %s" % ur[:6])
         if omp.SILENT:
             env.tags.append("silent stores to shared locations (every thread rewrites the value already there; result-neutral): %s" % sorted(set(omp.SILENT)))
     run.__name__ = "omp_" + h.__name__
@@ -85,10 +90,39 @@ def table():
     return _TABLE
 
 
+def _team_table():
+    """the same harnesses under the second schedule model: a team of T threads, the loop's own schedule kind and chunk size, every
+    thread running its chunks one after the other (state left in thread-private variables reaches later iterations)"""
+    from . import c05, c11
+    out = {}
+    for T in (2, 3):
+        out["contract_rad_orb_9shells/T%d" % T] = (_wrap(c05.h_rad_orb, T, "chunks"), dict(nalpha=1, stride=2, offset=1, basis="nine_shells"), "dft")
+        out["fill_l1_coeff/T%d" % T] = (_wrap(c05.h_fill_l1, T, "chunks"), {}, "dft")
+        out["project_spline/T%d" % T] = (_wrap(c05.h_project_spline, T, "chunks"), {}, "dft")
+        out["multiply_atc_integrals/T%d" % T] = (_wrap(c05.h_atc_integrals, T, "chunks"), dict(vk=False), "dft")
+        out["orb2grid_LCAOInterpolatorDirect/T%d" % T] = (_wrap(c05.h_direct, T, "chunks"), {}, "dft")
+        out["reduce_angc_ylm/T%d" % T] = (_wrap(c05.h_angc_ylm, T, "chunks"), dict(nrad=2, nw=(2, 3), nlm=4, nalpha=2, stride=3, offset=1), "dft")
+        out["evaluate_se_kernel/T%d" % T] = (_wrap(c11.h_rbf, T, "chunks"), dict(kind="const*full", n=3, nctrl=2), "kernels")
+    return out
+
+
+_TEAM = None
+
+
+def team_table():
+    global _TEAM
+    if _TEAM is None:
+        _TEAM = _team_table()
+    return _TEAM
+
+
 def tasks(tier):
     out = []
     for name, (fn, cfg, mods) in table().items():
         out.append(Task("races/%s" % name, fn, cfg, mods=mods, max_paths=64))
+    for name, (fn, cfg, mods) in team_table().items():
+        if tier == "thorough" or name.endswith("/T2"):
+            out.append(Task("schedules/%s" % name, fn, cfg, mods=mods, max_paths=64))
     return out
 
 
@@ -107,6 +141,16 @@ def replay(task, rec):
     obl = name[len(task.name) + 1:]
     if obl.startswith("no_data_race/") or obl.startswith("every_iteration") or obl.startswith("parallel_regions") or obl.startswith("work_shared"):
         return replay_race(task, rec, obl)
+    if task.name.startswith("schedules/"):
+        # a value identity that fails under one legal schedule: evaluate it on the compiled library with real teams, repeatedly
+        from .. import vgreplay
+        from ..run import _TIER
+        rp = common.generic_replay(task, rec)
+        if rp.get("confirmed"):
+            return rp
+        rp2 = vgreplay.confirm_schedule("C10", _TIER, task.name, rec.get("model_float") or {}, obl)
+        rp2["single_thread_replay"] = rp.get("detail")
+        return rp2
     from .. import harness
     if task.name.startswith("races/fft"):
         from . import c20
